@@ -114,7 +114,7 @@ func sameNameB() reflect.Type {
 // ---- descriptors by reflection ----
 
 func typeSx(t reflect.Type) string {
-	if t.PkgPath() != "" && t.Name() != "" && t.Kind() != reflect.Struct {
+	if definedScalar(t) {
 		return "other" // a defined scalar type: nothing the library produces is assignable to it
 	}
 	switch t.Kind() {
@@ -175,7 +175,15 @@ func isIntKind(k reflect.Kind) bool {
 }
 
 // valueSx: the value as the model's input; valueShow: in the model's output format
+// definedScalar: a defined type whose underlying kind is not a struct (the descriptor calls it "other": see typeSx)
+func definedScalar(t reflect.Type) bool {
+	return t.PkgPath() != "" && t.Name() != "" && t.Kind() != reflect.Struct
+}
+
 func valueSx(v reflect.Value) string {
+	if definedScalar(v.Type()) {
+		return "other"
+	}
 	switch v.Kind() {
 	case reflect.String:
 		return "(s " + sxStr(v.String()) + ")"
@@ -214,6 +222,9 @@ func valueSx(v reflect.Value) string {
 }
 
 func valueShow(v reflect.Value) string {
+	if definedScalar(v.Type()) {
+		return "o"
+	}
 	switch v.Kind() {
 	case reflect.String:
 		return "s[" + showStr(v.String()) + "]"
